@@ -46,11 +46,25 @@ def main():
         respath = os.path.join(BASE, "adhoc_results.json")
     if os.path.exists(respath):
         results = json.load(open(respath))
+    shard = os.environ.get("VFMUT_SHARD")          # "i/n": this process handles patches[i::n]; results go to BASE/shard_<kind>.json
+    if shard:
+        i, n = (int(x) for x in shard.split("/"))
+        patches = patches[i::n]
+        respath = os.path.join(BASE, "shard_%s.json" % KIND)
+        results = json.load(open(respath)) if os.path.exists(respath) else {}
+    done = set()
+    if os.environ.get("VFMUT_RESUME"):
+        main_res = os.path.join(V, "selftest", "results.json" if KIND != "refactors" else "results_refactors.json")
+        if os.path.exists(main_res):
+            done = set(json.load(open(main_res)).keys())
+        done |= set(results.keys())
     for p in [None] + patches:
         name = "BASELINE(unchanged)" if p is None else (os.path.basename(os.path.dirname(p)) + "/patch.diff" if p.endswith("patch.diff") else os.path.basename(p))
         if sel and p is not None and not any(s in name for s in sel):
             continue
         if sel and p is None and "BASELINE" not in sel:
+            continue
+        if name in done and p is not None:
             continue
         sh("git -C %s checkout -q -- . && git -C %s clean -fdq" % (WT, WT))
         if p is not None:
